@@ -59,6 +59,9 @@ DeclProgs == << Prog(<<SVar("a", None)>>), Prog(<<SVar("a", L1)>>), Prog(<<SVarL
                 Prog(<<SVarList(<<SVar("a", L1), SVar("b", L2)>>), SVarList(<<SVar("c", None), SVar("d", None)>>)>>),
                 Prog(<<SFor(SVarList(<<SVar("a", L1), SVar("b", None)>>), A, Asg("a", B), SBlock(<<>>))>>), Prog(<<SFor(SVar("a", None), None, None, Leaf)>>),
                 Prog(<<SFun("f", <<>>, <<>>)>>), Prog(<<SFun("f", <<"a", "b", "len">>, <<SVar("c", A), SReturn(Bin("+", A, B))>>)>>), Prog(<<SFun("f", <<"a">>, <<SFun("g", <<>>, <<SReturn(A)>>), SReturn(Id("g"))>>)>>),
+                Prog(<<SExpr(Call(A, <<B>>)), SExpr(Call(A, <<B, Call(C, <<D, A>>)>>)), SExpr(Call(A, <<L1, Call(B, <<L2>>), Call(C, <<D, Call(A, <<L1, L2>>)>>)>>))>>),
+                Prog(<<SExpr(Arr(<<A, B>>)), SExpr(Arr(<<A, Arr(<<B, C>>), Arr(<<D>>)>>)), SExpr(Obj(<<"a", "b">>, <<Obj(<<"c">>, <<A>>), Obj(<<"d", "e">>, <<B, C>>)>>))>>),
+                Prog(<<SExpr(Un("-", Un("-", A))), SExpr(Un("~", Un("~", A))), SExpr(Un("!", Un("!", A))), SExpr(Bin("-", A, Un("-", Un("-", B))))>>),
                 Prog(<<SReturn(L1)>>), Prog(<<SBlock(<<>>), SBlock(<<SBlock(<<>>)>>)>>), Prog(<<SPrint(Obj(<<"a", "b", "a">>, <<L1, L2, A>>))>>), Prog(<<SExpr(Grp(Obj(<<"a">>, <<L1>>)))>>),
                 Prog(<<SVar("o", Obj(<<"k", "m">>, <<Arr(<<L1, L2>>), Obj(<<>>, <<>>)>>))>>), Prog(<<SExpr(Call(Id("len"), <<A>>)), SExpr(Asg("len", L1)), SExpr(Prop(A, "len"))>>) >>
 StmtProgs == LET ss == SelectSeq(Stmts(IF Deep THEN 3 ELSE 2), Canon) IN [i \in 1..Len(ss) |-> Prog(<<ss[i]>>)] \o DeclProgs   \* only trees the grammar can produce: else belongs to the nearest if
